@@ -441,6 +441,66 @@ func c09BGV(ctx *core.RunCtx, scaleInvariant bool) *c09Scheme {
 				return false
 			}
 		}
+		// both slice types, batched (slots) and not (coefficients), shorter than the capacity, into a plaintext that
+		// held something else before: equal to a new encoder writing into a new plaintext
+		for rep := 0; rep < 2; rep++ {
+			batched := g.Next()%2 == 0
+			n := 1 + int(g.Next()%uint64(bp.N()))
+			if g.Next()%4 == 0 {
+				n = bp.N()
+			}
+			var vals any
+			if g.Next()%2 == 0 {
+				u := make([]uint64, n)
+				for i := range u {
+					u[i] = g.Next() % bp.PlaintextModulus()
+				}
+				vals = u
+			} else {
+				w := make([]int64, n)
+				for i := range w {
+					w[i] = int64(g.Next()%bp.PlaintextModulus()) - int64(bp.PlaintextModulus()/2)
+				}
+				vals = w
+			}
+			lvl := int(g.Next() % uint64(bp.MaxLevel()+1))
+			q1, q2 := bgv.NewPlaintext(bp, lvl), bgv.NewPlaintext(bp, lvl)
+			q1.IsBatched, q2.IsBatched = batched, batched
+			if g.Next()%2 == 0 {
+				sc1 := bp.NewScale(1 + g.Next()%1000)
+				q1.Scale, q2.Scale = sc1, sc1
+			}
+			catalog.FillPoly(bp.RingQ().AtLevel(lvl), q1.Value, g) // previous content
+			core.PoisonScratch(e1, core.NewXoshiro(g.Next()))
+			u1 := c09Exec(func() error { return e1.Encode(vals, q1) })
+			u2 := c09Exec(func() error { return e2.Encode(vals, q2) })
+			ctx.Count("oracle.encoder-twin", 1)
+			what := fmt.Sprintf("Encode(%T of %d values, batched=%v, level %d) into a plaintext with previous content", vals, n, batched, lvl)
+			if u1.kind != u2.kind {
+				ctx.Fail("status", sc.name+"|Encoder.Encode|status-differs", "%s -> %s ; a new encoder into a new plaintext -> %s", what, u1, u2)
+				return false
+			}
+			if u1.kind == 0 {
+				if ok, w := eqPoly(bp.RingQ().AtLevel(lvl), q1.Value, q2.Value); !ok {
+					ctx.Fail("result", sc.name+"|Encoder.Encode|reused-plaintext-differs", "%s differs from a new encoder writing into a new plaintext: %s", what, w)
+					return false
+				}
+				// and back, into receivers of the same length
+				var r1, r2 any
+				if _, ok := vals.([]uint64); ok {
+					r1, r2 = make([]uint64, n), make([]uint64, n)
+				} else {
+					r1, r2 = make([]int64, n), make([]int64, n)
+				}
+				core.PoisonScratch(e1, core.NewXoshiro(g.Next()))
+				t1 := c09Exec(func() error { return e1.Decode(q1, r1) })
+				t2 := c09Exec(func() error { return e2.Decode(q2, r2) })
+				if t1.kind != t2.kind || t1.kind == 0 && fmt.Sprint(r1) != fmt.Sprint(r2) {
+					ctx.Fail("result", sc.name+"|Encoder.Decode|differs", "Decode(%T of %d values, batched=%v) on a used encoder with poisoned buffers differs from a new encoder (%s / %s)", r1, n, batched, t1, t2)
+					return false
+				}
+			}
+		}
 		// encryptor / decryptor: inputs intact
 		pt := bgv.NewPlaintext(bp, level)
 		_ = enc.Encode(v, pt)
@@ -1076,6 +1136,16 @@ func c09CKKS(ctx *core.RunCtx) *c09Scheme {
 				} else {
 					_ = eb.Encode(mkVals(), ckks.NewPlaintext(cp, cp.MaxLevel()))
 				}
+				aliasCheck := func() bool {
+					if text(r1) != before {
+						ctx.Fail("inputs", "ckks|Encoder(prec=128).Decode|returned-values-alias-scratch", "the values that Decode returned in a %T (receiver kind %d) changed when the encoder was used again: they point into its buffers", r1, kind)
+						return false
+					}
+					return true
+				}
+				if !aliasCheck() {
+					return false
+				}
 				// DecodePublic (decoding with a rounding to a public precision) into a receiver longer than the slots:
 				// the entries beyond the slots are not part of the result
 				{
@@ -1094,8 +1164,7 @@ func c09CKKS(ctx *core.RunCtx) *c09Scheme {
 						return false
 					}
 				}
-				if text(r1) != before {
-					ctx.Fail("inputs", "ckks|Encoder(prec=128).Decode|returned-values-alias-scratch", "the values that Decode returned in a %T (receiver kind %d) changed when the encoder was used again: they point into its buffers", r1, kind)
+				if !aliasCheck() {
 					return false
 				}
 			}
